@@ -57,7 +57,12 @@ func H_C20_extract_child(t *verifrt.T) {
 		doc = append(doc, `}}`...)
 		path = "$.a.b"
 	} else {
-		doc = append([]byte(`{"b":0,"a":`+ws), val...)
+		// a sibling whose one-letter name is symbolic (any letter but the selected one)
+		k := t.Byte("sibling")
+		t.Assume(verifrt.And(verifrt.Or(verifrt.And(k >= 'A', k <= 'Z'), verifrt.And(k >= 'a', k <= 'z')), k != 'a'))
+		doc = append([]byte(`{"`), k)
+		doc = append(doc, `":0,"a":`+ws...)
+		doc = append(doc, val...)
 		doc = append(doc, `,"c":[]}`...)
 		path = "$.a"
 	}
